@@ -304,6 +304,24 @@ def r11b(ctx):
                 for cn in cls_names:
                     for pr in props:
                         cond_excluded[cn] = pr
+    # the same tests written over a list of candidates that contains the frame:
+    #   members = [...self.frame...];  not any(isinstance(e, T) for e in members)
+    from sa.rules.util import pfind
+
+    for n, b in pfind("not any((isinstance(V_e, V_t) for V_e in V_m))", sd):
+        gen = n.operand.args[0]
+        src = defs.expand(gen.generators[0].iter, at=n)
+        if "self.frame" not in unparse(src):
+            continue
+        for e in _tuple_elts(defs.expand(gen.elt.args[1], at=n)):
+            excluded.add(dotted(e))
+    for n, b in pfind("not any((isinstance(V_e, V_t) and V_e.V_prop for V_e in V_m))", sd):
+        gen = n.operand.args[0]
+        src = defs.expand(gen.generators[0].iter, at=n)
+        if "self.frame" not in unparse(src):
+            continue
+        for e in _tuple_elts(gen.elt.values[0].args[1]):
+            cond_excluded[dotted(e)] = b["V_prop"]
     excluded.discard(None)
     if not excluded:
         raise AnalysisError("anchor changed: exclusion test of Partitions._simplify_down not found")
@@ -373,6 +391,26 @@ def r11b(ctx):
                 ctx.ok(cid, c.loc, "excluded from the Partitions push-down")
             else:
                 ctx.bad(cid, c.loc, f"{c.qual} is Blockwise only until its _lower rewrites it into other expressions (e.g. overlapping partitions); a Partitions push-down below it makes it see only the selected partitions as neighbours")
+    # (d) groups: a Blockwise whose task inlines the tasks of OTHER expressions (x._task(...)) carries expressions that are not
+    # among its dependencies; re-building it over selected inputs leaves those members reading unselected partitions
+    nd = 0
+    for c in model.subclasses(bw):
+        t = c.members.get("_task")
+        if t is None or c is bw or not isinstance(t.node, ast.FunctionDef):
+            continue
+        inl = [x for x in iter_body_nodes(t.node) if isinstance(x, ast.Call) and isinstance(x.func, ast.Attribute) and x.func.attr == "_task" and not (isinstance(x.func.value, ast.Name) and x.func.value.id == "self") and not (isinstance(x.func.value, ast.Call) and dotted(x.func.value.func) == "super")]
+        if not inl:
+            continue
+        nd += 1
+        cid = f"{c.qual}:inlines-member-tasks"
+        for k in model.subclasses(c):
+            if is_excluded(k):
+                continue
+            ctx.bad(cid, c.module.loc(inl[0]), f"{k.qual} inlines the tasks of member expressions (`{unparse(inl[0])}`) that are not among its dependencies, yet Partitions can be pushed below it: the members keep reading the unselected partitions")
+            break
+        else:
+            ctx.ok(cid, c.module.loc(inl[0]), "excluded from the Partitions push-down")
+    ctx.floor("Blockwise classes that inline member tasks", nd, 1)
     ctx.floor("Blockwise classes examined", n, 150)
 
 
